@@ -61,6 +61,8 @@ def _classify(exc):
 
 def run_case(case: dict) -> dict:
     """case: {cod, od, style, calls:[...], seed}.  Returns {"ev": [...], "od": od}."""
+    import logging
+    logging.disable(logging.CRITICAL)
     import canopen
     import canopen.sdo.client as client_mod
     client_mod.queue = INSTANT_QUEUE_MODULE
@@ -93,7 +95,7 @@ def run_case(case: dict) -> dict:
                 state["late"] = list(r)
             elif kind == "dup" and r:
                 dlv = [r[0], r[0]]
-            elif kind == "abort" and r:
+            elif kind in ("abort", "refuse") and r:
                 dlv = [struct.pack("<BHBL", 0x80, *struct.unpack_from("<HB", q, 1), f["code"])]
             elif kind == "toggle" and r and (r[0][0] >> 5) in (0, 1) and r[0][0] != 0x80:
                 dlv = [bytes([r[0][0] ^ 0x10]) + r[0][1:]]
